@@ -1190,8 +1190,15 @@ rrul_fill_mly(echs_instant_t *restrict tgt, size_t nti, rrulsp_t rr)
 		tmp = echs_shift_dvalue(rr->shift) +
 			echs_shift_bvalue(rr->shift) * 7 / 5;
 
-		m -= tmp-- > 0;
-		m -= tmp / 30;
+		if (tmp > 0) {
+			/* go back far enough: months have at least 28 days
+			 * and a business day shift may add a weekend */
+			m -= 1 + (tmp + 3) / 28;
+		} else if (tmp < -4) {
+			/* skip months that cannot reach the proto again:
+			 * months have at most 31 days */
+			m += (-tmp - 4) / 31;
+		}
 		for (; m <= 0; m += 12, y--);
 		for (; m > 12; m -= 12, y++);
 	}
